@@ -2428,6 +2428,79 @@ fn parse_float_symbol(symbol: &str) -> Result<FloatSymbolParts<'_>, &'static str
     })
 }
 
+#[cfg(feature = "verif-hooks")]
+pub(crate) mod verif_local {
+    use std::cell::RefCell;
+
+    use super::*;
+
+    /// A rewriter that records every shape it is handed and answers with the next prepared
+    /// answer (`None`: `Err(RewriteError::Unknown)`), repeating the last one.
+    pub(crate) struct Probe {
+        pub(crate) seen: RefCell<Vec<Shape>>,
+        pub(crate) answers: Vec<Option<String>>,
+    }
+
+    impl Rewrite for Probe {
+        fn rewrite(&self, context: &RewriteContext<'_>, shape: Shape) -> Option<String> {
+            self.rewrite_result(context, shape).ok()
+        }
+
+        fn rewrite_result(&self, _: &RewriteContext<'_>, shape: Shape) -> RewriteResult {
+            let mut seen = self.seen.borrow_mut();
+            let k = seen.len().min(self.answers.len().saturating_sub(1));
+            seen.push(shape);
+            match self.answers.get(k) {
+                Some(Some(s)) => Ok(s.clone()),
+                _ => Err(RewriteError::Unknown),
+            }
+        }
+    }
+
+    fn tactics(t: u8) -> RhsTactics {
+        match t {
+            0 => RhsTactics::Default,
+            1 => RhsTactics::ForceNextLineWithoutIndent,
+            _ => RhsTactics::AllowOverflow,
+        }
+    }
+
+    /// `shape_from_rhs_tactic`; `t`: 0 = `Default`, 1 = `ForceNextLineWithoutIndent`,
+    /// 2 = `AllowOverflow`.
+    pub(crate) fn shape_from_rhs_tactic(
+        context: &RewriteContext<'_>,
+        shape: Shape,
+        t: u8,
+    ) -> Option<Shape> {
+        super::shape_from_rhs_tactic(context, shape, tactics(t))
+    }
+
+    /// `rewrite_assign_rhs_expr(context, lhs, probe, shape, &RhsAssignKind::Ty, tactics)`.
+    pub(crate) fn rewrite_assign_rhs_expr(
+        context: &RewriteContext<'_>,
+        lhs: &str,
+        probe: &Probe,
+        shape: Shape,
+        t: u8,
+    ) -> RewriteResult {
+        super::rewrite_assign_rhs_expr(context, lhs, probe, shape, &RhsAssignKind::Ty, tactics(t))
+    }
+
+    /// `ControlFlow::rewrite_cond(context, shape, alt_block_sep)` of the control-flow
+    /// expression `expr` (`None`: it is none); an `if` is built with the given `nested_if`.
+    pub(crate) fn rewrite_cond(
+        context: &RewriteContext<'_>,
+        expr: &ast::Expr,
+        nested_if: bool,
+        shape: Shape,
+        alt_block_sep: &str,
+    ) -> Option<Result<(String, usize), RewriteError>> {
+        let mut cf = to_control_flow(expr, ExprType::Statement)?;
+        cf.nested_if = nested_if;
+        Some(cf.rewrite_cond(context, shape, alt_block_sep))
+    }
+}
+
 #[cfg(test)]
 mod test {
     use super::*;
